@@ -130,11 +130,37 @@ def runCollector (a : Arena) (ru : RunUntil) (stop : Stop) (fault : TraceFault)
       let unw := ms.any (fun m => match m with | .markStep (some _) => true | _ => false)
       some (c, if unw then .unwound else .returned)
 
-/-- `MarkedArena::start_sweeping`. -/
+/-- `MarkedArena::start_sweeping`: `do_collection(Stop, AtSweep)` then
+    `assert_eq!(phase, Phase::Sweep)`.  `none`: a logged step is not enabled in the model, or the
+    assertion would fire (`C08.start_sweeping_asserts` shows the self-driven model never does). -/
 def startSweeping (a : Arena) (oracle : Option (List Micro)) : Option Ctx :=
   match a.runCollector .stop .atSweep none oracle with
   | none => none
-  | some (c, _) => some (if c.phase = .sweep then c else c.fail .unreachable)
+  | some (c, _) => if c.phase = .sweep then some c else none
+
+/-- The oracle, when present, covers the method's own call and (for `sweep`) the
+    `start_sweeping` call that follows: it is split at the first `S`. -/
+def splitOracle (oracle : Option (List Micro)) (k : Cont) (m : Method) :
+    Option (List Micro) × Option (List Micro) :=
+  match oracle with
+  | none => (none, none)
+  | some ms =>
+    if k = .sweep && (m = .markDebt || m = .finishMarking) then
+      (some (ms.takeWhile (· ≠ .toSweep)), some (ms.dropWhile (· ≠ .toSweep)))
+    else (some ms, none)
+
+/-- The tail of `mark_debt` / `finish_marking`: hand out a `MarkedArena` iff
+    `phase == Mark && !gray_remaining()`, and do with it what the client chose. -/
+def marked? (a : Arena) (k : Cont) (o2 : Option (List Micro)) : Arena × String :=
+  if isMarked a.ctx then
+    match k with
+    | .drop => (a, "some")
+    | .finalize => ({ a with marked := true }, "some")
+    | .sweep =>
+      match a.startSweeping o2 with
+      | none => (a, "model-reject")
+      | some c' => ({ a with ctx := c' }, "some")
+  else (a, "none")
 
 def coverOK (a : Arena) (p : Nat) (v : Slot) : Bool :=
   match v with
@@ -155,6 +181,11 @@ def slotOf (c : Ctx) (p i : Nat) : Option Slot :=
   | none => none
   | some o => o.slots[i]?
 
+def isTracing (c : Ctx) (p : Nat) : Bool :=
+  match c.heap.get p with
+  | none => false
+  | some o => o.needsTrace
+
 def showPtr : Ptr → String
   | .strong t => s!"s{t}"
   | .weak t => s!"w{t}"
@@ -165,11 +196,9 @@ def showSlot : Slot → String
 
 def bad (a : Arena) : Arena × String := (a, "bad-op")
 
-/-- One API-level operation.  Returns the new state and the value the client observes. -/
-def step (a : Arena) (op : Op) : Arena × String :=
-  if !a.alive then a.bad else
-  let fin := a.marked
-  let a := { a with marked := false }
+/-- One API-level operation on a live arena; `fin`: the previous op handed out a `MarkedArena`
+    that the client kept.  Returns the new state and the value the client observes. -/
+def stepBody (a : Arena) (fin : Bool) (op : Op) : Arena × String :=
   match op with
   | .setPacing p =>
     ({ a with ctx := a.ctx.withMetrics (·.setPacing p) }, "ok")
@@ -177,32 +206,16 @@ def step (a : Arena) (op : Op) : Arena × String :=
     ({ a with ctx := a.ctx.withMetrics (·.adjustDebt x) }, "ok")
   | .collect m k fault oracle =>
     if a.cb.isSome then a.bad else
-    let (ru, stop) := methodArgs m
-    -- the oracle, when present, covers the method's own call and (for `sweep`) the
-    -- `start_sweeping` call that follows: it is split at the first `S`.
-    let (o1, o2) : Option (List Micro) × Option (List Micro) :=
-      match oracle with
-      | none => (none, none)
-      | some ms =>
-        if k = .sweep && (m = .markDebt || m = .finishMarking) then
-          (some (ms.takeWhile (· ≠ .toSweep)), some (ms.dropWhile (· ≠ .toSweep)))
-        else (some ms, none)
-    match a.runCollector ru stop fault o1 with
-    | none => ({ a with ctx := a.ctx.fail .unreachable }, "model-reject")
+    let os := splitOracle oracle k m
+    match a.runCollector (methodArgs m).1 (methodArgs m).2 fault os.1 with
+    | none => (a, "model-reject")
     | some (c, ex) =>
       let a := { a with ctx := c, cover := [] }
       if ex = .unwound then (a, "panic") else
+      if ex = .outOfFuel then (a, "out-of-fuel") else
       match m with
-      | .markDebt | .finishMarking =>
-        if isMarked c then
-          match k with
-          | .drop => (a, "some")
-          | .finalize => ({ a with marked := true }, "some")
-          | .sweep =>
-            match a.startSweeping o2 with
-            | none => ({ a with ctx := a.ctx.fail .unreachable }, "model-reject")
-            | some c' => ({ a with ctx := c' }, "some")
-        else (a, "none")
+      | .markDebt => a.marked? k os.2
+      | .finishMarking => a.marked? k os.2
       | _ => (a, "-")
   | .enter k =>
     if a.cb.isSome then a.bad else
@@ -287,6 +300,8 @@ def step (a : Arena) (op : Op) : Arena × String :=
     match slotOf a.ctx p i with
     | none => a.bad
     | some _ =>
+      -- a value whose type has `NEEDS_TRACE = false` cannot hold pointers (the `Collect` contract, C16)
+      if v.isSome && !isTracing a.ctx p then a.bad else
       match path with
       | .write =>
         let c := a.ctx.backwardBarrier p none
@@ -302,6 +317,10 @@ def step (a : Arena) (op : Op) : Arena × String :=
   | .dropArena =>
     if a.cb.isSome then a.bad else
     ({ a with ctx := a.ctx.dropAll, alive := false, root := [], cover := [] }, "ok")
+
+/-- One API-level operation.  A dropped arena accepts nothing. -/
+def step (a : Arena) (op : Op) : Arena × String :=
+  if !a.alive then a.bad else ({ a with marked := false } : Arena).stepBody a.marked op
 
 end Arena
 end GcArena
